@@ -810,7 +810,7 @@ class IteratorQueue(IterableQueue[_ValueT]):
       raise e
     while not self.enqueue_done:
       try:
-        self.put(next(iterator))
+        value = next(iterator)
       except StopIteration as e:
         self._stop_enqueue(*e.args)
         return
@@ -822,6 +822,16 @@ class IteratorQueue(IterableQueue[_ValueT]):
               f'"{self.name}" enqueue error ignored, stacktrace:',
           )
           continue
+        e.add_note(f'Exception during enqueueing "{self.name}".')
+        logging.exception('chainable: %s', f'"{self.name}" enqueue failed.')
+        self._exception = e
+        self._stop_enqueue()
+        raise e
+      try:
+        self.put(value)
+      except Exception as e:  # pylint: disable=broad-exception-caught
+        # A failing put (e.g. a timeout on a full queue) is never ignorable: the
+        # element in hand would be dropped silently.
         e.add_note(f'Exception during enqueueing "{self.name}".')
         logging.exception('chainable: %s', f'"{self.name}" enqueue failed.')
         self._exception = e
